@@ -25,6 +25,7 @@ from harness.core import gbool, gstr, glist
 
 HEADER = """From Coq Require Import List Bool Arith String ZArith.
 From FrameModel Require Import Strop.Strop Cases.CmpC15.
+From Coq Require Import NArith.
 Import ListNotations.
 Open Scope string_scope."""
 
@@ -425,6 +426,86 @@ def gen_large_case(rng):
     return {"kind": "m", "gen": tag, "rows": to_rows(m)}
 
 
+# ---- matrices as text ----
+# str.isspace, the separators of str.split() without argument (an independent statement of them)
+SPACES = [9, 10, 11, 12, 13, 28, 29, 30, 31, 32, 133, 160, 5760] + list(range(8192, 8203)) + [8232, 8233, 8239, 8287, 12288]
+ASCII_SPACES = [32, 32, 32, 10, 10, 9, 13, 11, 12]
+
+
+def gen_text_case(rng):
+    """A matrix spelled as text: rows separated by any non-empty whitespace, optional whitespace before the first
+    and after the last row; sometimes not a 0/1 matrix at all (other characters, no row: refusal expected)."""
+    k = rng.random()
+    if k < 0.1:
+        m, _ = gen_large_matrix(rng, rng.choice([12, 18, 40]))
+    elif k < 0.6:
+        R, C = rng.randrange(1, 9), rng.randrange(1, 9)
+        m = gen_strop_matrix(rng, R, C)
+        if rng.random() < 0.4:
+            i, j = rng.randrange(R), rng.randrange(C)
+            m[i][j] = 1 - m[i][j]
+    else:
+        R, C = rng.randrange(1, 5), rng.randrange(1, 5)
+        m = [[rng.randrange(2) for _ in range(C)] for _ in range(R)]
+    rows = to_rows(m)
+    style = rng.choice(["space", "newline", "nl-each", "crlf", "tab", "ascii", "ascii", "unicode", "unicode"])
+
+    def sep(empty_ok=False):
+        if style == "space":
+            s = [32]
+        elif style in ("newline", "nl-each"):
+            s = [10]
+        elif style == "crlf":
+            s = [13, 10]
+        elif style == "tab":
+            s = [9]
+        elif style == "ascii":
+            s = [rng.choice(ASCII_SPACES) for _ in range(rng.choice([1, 1, 2, 3]))]
+        else:
+            s = [rng.choice(SPACES) for _ in range(rng.choice([1, 1, 2]))]
+        return [] if empty_ok and rng.random() < 0.5 else s
+    text = sep(True) if style in ("ascii", "unicode") else []
+    for i, row in enumerate(rows):
+        text += [ord(ch) for ch in row]
+        last = i == len(rows) - 1
+        if not last:
+            text += sep()
+        elif style == "nl-each":       # what strop_decomposition writes: every row followed by a newline
+            text += [10]
+        elif style in ("ascii", "unicode", "crlf"):
+            text += sep(True)
+    bad = None
+    if rng.random() < 0.12:
+        bad = rng.choice(["char", "char", "empty", "blank", "ragged"])
+        if bad == "char":              # one character that is neither '0' nor '1' (also digits of other scripts)
+            pos = [i for i, c in enumerate(text) if c in (48, 49)]
+            text[rng.choice(pos)] = rng.choice([50, 57, 47, 58, 45, 46, 88, 120, 79, 108, 0, 127, 178, 185, 1633, 65297, 8203])
+        elif bad == "empty":
+            text = []
+        elif bad == "blank":
+            text = [rng.choice(SPACES) for _ in range(rng.randrange(1, 4))]
+        else:
+            pos = [i for i, c in enumerate(text) if c in (48, 49)]
+            i = rng.choice(pos)
+            text = text[:i] + text[i + 1:] if rng.random() < 0.5 and len(pos) > 1 else text[:i] + [48] + text[i:]
+    return {"kind": "t", "gen": style + ("/" + bad if bad else ""), "text": text}
+
+
+def text_rows(text):
+    """Rows of a text by the harness' own splitter, or None if it is not a 0/1 matrix."""
+    rows, cur = [], []
+    for c in text + [32]:
+        if c in SPACES:
+            if cur:
+                rows.append(cur)
+            cur = []
+        else:
+            cur.append(c)
+    if not rows or any(c not in (48, 49) for r in rows for c in r) or len(set(len(r) for r in rows)) != 1:
+        return None
+    return ["".join(chr(c) for c in r) for r in rows]
+
+
 def exhaustive_cases(maxcells, maxside):
     for R in range(1, maxside + 1):
         for C in range(1, maxside + 1):
@@ -617,6 +698,35 @@ def gen_gpoly_case(rng, big=False):
             "closed": rng.random() < 0.15, "repr": rng.choice(forms), "twice": rng.random() < 0.2}
 
 
+def gen_probe_cases(rng, npoly):
+    """Systematic part of the polygon stream: for npoly small integer polygons, EVERY corner in turn is put
+    exactly on a padding-like point ((-1,-1), (0,0), (-1,0), (0,-1)) and listed last or first, the vertices
+    given as a 2-D array (the form FloorSet uses, where rows of -1 are padding) or in another form."""
+    for _ in range(npoly):
+        while True:
+            R, C = rng.randrange(1, 5), rng.randrange(1, 5)
+            m = gen_strop_matrix(rng, R, C)
+            pts = outline(m)
+            if pts is not None and len(pts) <= 12:
+                break
+        ws, hs = _widths(rng, C, "int"), _widths(rng, R, "int")
+        xs0, ys0 = [F(0)], [F(0)]
+        for w in ws:
+            xs0.append(xs0[-1] + w)
+        for h in hs:
+            ys0.append(ys0[-1] + h)
+        ys0.reverse()
+        rev = rng.random() < 0.5
+        for k in range(len(pts)):
+            for tx, ty in ((-1, -1), (0, 0), (-1, 0), (0, -1)):
+                dx, dy = xs0[pts[k][0]] - tx, ys0[pts[k][1]] - ty
+                for where in ("last", "first"):
+                    yield {"kind": "gpoly", "gen": "probe", "mode": "int", "place": "anchor", "rows": to_rows(m),
+                           "xs": [x - dx for x in xs0], "ys": [y - dy for y in ys0], "rev": rev, "anchor": k,
+                           "where": where, "rot": 0, "closed": False, "twice": False,
+                           "repr": rng.choice(["array_f64", "array_i64", "array_f32", "array_i32", "rows", "point_int"])}
+
+
 def gpoly_vertices(c):
     m = [[ch == "1" for ch in row] for row in c["rows"]]
     idx = outline(m)
@@ -738,10 +848,10 @@ def shoelace(pts):
 def run_impl(case):
     from frame.geometry.geometry import Rectangle
     Rectangle.undefine_epsilon()
-    if case["kind"] == "m":
+    if case["kind"] in ("m", "t"):
         from tools.floorset_parser.floor_set_manager.strop import Strop
         try:
-            s = Strop(" ".join(case["rows"]))
+            s = Strop(" ".join(case["rows"]) if case["kind"] == "m" else "".join(chr(c) for c in case["text"]))
         except AssertionError as e:
             return {"v": None, "why": str(e)}
         inst = []
@@ -823,11 +933,13 @@ def grects(rects):
 def to_coq(case, obs):
     if case["kind"] in ("poly", "gpoly"):
         pts = gpoly_vertices(case) if case["kind"] == "gpoly" else poly_vertices(case)
-        vs = gpts([(fexact(x), fexact(y)) for x, y in pts])
+        form = case.get("repr", "point")
+        isp = lambda k: form in ("point", "point_int") or (form == "mixed" and k % 2 == 1)
+        vs = glist([f"{'vp' if isp(k) else 'vr'} {gqq(fexact(x))} {gqq(fexact(y))}" for k, (x, y) in enumerate(pts)])
         # decimal coordinates: the model computes with the exact values of the binary64 inputs; the cells, the
         # instances and the order of the rectangles are not affected by rounding, the four numbers of a
         # rectangle are (a sum or a difference of two inputs), so they are compared up to 2^-40
-        ck = "ckp" if case.get("mode") != "decimal" else "ckpc (q 1 1099511627776)"
+        ck = "ckf" if case.get("mode") != "decimal" else "ckfc (q 1 1099511627776)"
         out = []
         for which in ("rects", "again"):
             if which in obs:
@@ -836,14 +948,22 @@ def to_coq(case, obs):
     if case["kind"] == "inside":
         pbs = glist([f"(({gqq(x)}, {gqq(y)}), {gbool(b)})" for (x, y), b in zip(case["pts"], obs["in"])])
         return f"cki {gpts(case['vs'])} {pbs}"
-    rows = glist([gstr(r) for r in case["rows"]])
+    if case["kind"] == "t":
+        ck, rows = "ckt", glist([str(int(c)) for c in case["text"]]) + "%N"
+    else:
+        ck, rows = "ck", glist([gstr(r) for r in case["rows"]])
     if obs["v"] is None:
-        return f"ck {rows} None false"
+        return f"{ck} {rows} None false"
     exp = glist([glist([f"r {a} {b} {c} {d}" for a, b, c, d in rs]) for rs in obs["v"]])
-    return f"ck {rows} (Some {exp}) {gbool(obs['is'])}"
+    return f"{ck} {rows} (Some {exp}) {gbool(obs['is'])}"
 
 
 def oracle(case, obs):
+    if case["kind"] == "t":
+        rows = text_rows(case["text"])
+        if rows is None:
+            return None       # not a 0/1 grid: outside the property (the model still says what the code does)
+        return oracle({"kind": "m", "rows": rows}, obs)
     if case["kind"] == "m":
         rows = case["rows"]
         wellformed = len(rows) > 0 and len(rows[0]) > 0 and all(len(r) == len(rows[0]) for r in rows)
@@ -956,10 +1076,18 @@ ABSORBED = "[tolerance absorbed: 1e-12 x smallest side is below half an ulp of a
 def failure_key(case, why):
     if case["kind"] in ("poly", "gpoly") and why and ABSORBED in why:
         return "C15/stog-tolerance-absorbed"
-    return {"m": "C15/grid", "inside": "C15/point-inside"}.get(case["kind"], "C15/polygon")
+    return {"m": "C15/grid", "t": "C15/grid-text", "inside": "C15/point-inside"}.get(case["kind"], "C15/polygon")
 
 
 def shrink(case):
+    if case["kind"] == "t":
+        text = case["text"]
+        for k in range(len(text)):
+            yield dict(case, text=text[:k] + text[k + 1:], gen="shrunk")
+        for k, c in enumerate(text):
+            if c in SPACES and c != 32:
+                yield dict(case, text=text[:k] + [32] + text[k + 1:], gen="shrunk")
+        return
     if case["kind"] == "m":
         rows = case["rows"]
         if len(rows) > 1:
@@ -1012,6 +1140,8 @@ def shrink(case):
 
 
 def nontrivial(case):
+    if case["kind"] == "t":
+        return case["text"].count(49) >= 2
     if case["kind"] == "m":
         return sum(r.count("1") for r in case["rows"]) >= 2
     if case["kind"] == "inside":
@@ -1022,6 +1152,8 @@ def nontrivial(case):
 
 
 def dist_key(case):
+    if case["kind"] == "t":
+        return "text/" + case.get("gen", "?")
     if case["kind"] == "m":
         g = case.get("gen", "?")
         if g.startswith("large/"):
@@ -1083,16 +1215,17 @@ def run(ctx, out, replay=None):
     rng = ctx.rng
     if quick:
         cheap = list(exhaustive_cases(12, 12)) + list(sampled_cases(rng, 6000, 12, 16))
-        nrand, npoly, ngpoly, nbig, ninside, nlarge, ntext = 3000, 300, 500, 40, 200, 400, 400
+        nrand, npoly, ngpoly, nbig, nprobe, ninside, nlarge, ntext = 3000, 300, 500, 40, 8, 200, 400, 400
     else:
         cheap = list(exhaustive_cases(16, 16))
-        nrand, npoly, ngpoly, nbig, ninside, nlarge, ntext = 40000, 3000, 5000, 400, 3000, 5000, 5000
+        nrand, npoly, ngpoly, nbig, nprobe, ninside, nlarge, ntext = 40000, 3000, 5000, 400, 80, 3000, 5000, 5000
     cheap += [gen_matrix_case(rng) for _ in range(nrand)]
     cheap += [gen_text_case(rng) for _ in range(ntext)]
     heavy = [gen_large_case(rng) for _ in range(nlarge)]
     heavy += [gen_poly_case(rng) for _ in range(npoly)]
     heavy += [gen_gpoly_case(rng) for _ in range(ngpoly)]
     heavy += [gen_gpoly_case(rng, big=True) for _ in range(nbig)]
+    heavy += list(gen_probe_cases(rng, nprobe))
     heavy += [gen_inside_case(rng) for _ in range(ninside)]
     rng.shuffle(heavy)
     cases = head + spread(cheap, heavy)
